@@ -15,9 +15,19 @@ FIRST = {  # outcome of the check as it was when the change arrived (exit 1 = ca
  # round 3 (prompt asked for less-travelled paths; duplicates of earlier changes were dropped): directories .../4
  "C02/4": "yes", "C04/4": "no", "C06/4": "yes", "C08/4": "yes", "C10/4": "yes", "C15/4": "yes", "C17/4": "no", "C20/4": "no",
  "C11/4": "no", "C14/4": "yes", "C19/4": "yes",
+ # round 5 (two changes per agent, in different files; duplicates dropped): directories .../5 and .../6
+ "C01/5": "yes", "C03/5": "no", "C05/5": "yes", "C05/6": "no", "C06/5": "yes", "C06/6": "no", "C12/5": "yes", "C12/6": "no",
+ "C15/5": "no", "C16/5": "no", "C18/5": "no",
  "C13/3": "yes", "C14/3": "yes", "C15/3": "yes", "C16/3": "yes", "C17/3": "yes", "C18/3": "yes", "C19/3": "yes", "C20/3": "yes",
 }
 STRENGTH = {
+ "C03/5": "the reserve step of an invoice payer can be repeated at any time (Op::Lock now also addresses paid invoices) and a preset replays it after the payment was mined and seen confirmed -> c03:lock-repeat-had-effect",
+ "C05/6": "new negative: the target is confirmed on chain but the wallet has not refreshed since (cancel_tx's own refresh must notice), with a send without change whose confirmation only the kernel proves -> c05:cancelled-uncancellable",
+ "C06/6": "NOT detected by C06 (after the crash the wallet is consistent and cancellable, as C06 states; the damage needs a second finalize). The same code change is C02/1 = C02/3 = C03/1 and is detected by C02 and C03",
+ "C12/6": "NOT detected: the second, different reply to an already finalized invoice has to come from a second payer wallet (two payments of one invoice from one wallet collide on the payer's own context record); the worlds have two wallets. Op::RefinalizeOtherReply got an invoice variant, which the issuer refuses for a fee mismatch before the nonce matters",
+ "C15/5": "build_coinbase naming a key the wallet holds no record for (an earlier candidate whose record is gone, or a path just ahead of the counter) -> c15:path-reused",
+ "C16/5": "partial scans that start above the block which confirmed a not-yet-refreshed receive of a non-active account are generated much more often (0..3 blocks mined after it, start heights drawn in that window) -> c16:repair:delete-unconfirmed-drops-confirmed-output-of-inactive-account",
+ "C18/5": "a quarter of the scans run against a node that stops answering after a generated number of calls; a failed scan is repeated with the node back, a completed one is judged -> c18:scan:not-reported-reverted",
  "C11/4": "the honest finalize is first attempted with the wallet's other account active (refused on the unchanged tree, then repeated under the sending account); if it is accepted everything downstream is judged -> c11:exported-proof-invalid",
  "C04/4": "histories may start with a pending send in each of two accounts whose log ids coincide (reserved / finalized / one of them cancelled); the scenario is also kept as regress/C04/seed4-*.json -> c04:*:ledger",
  "C17/4": "expiry part: new role self-send inside one account (sent and received entry share the slate id) and recipient that cancels and re-receives the same slate -> c17:expire:not-cancelled",
